@@ -240,7 +240,7 @@ def _work(ob: Ob, known: List[Dict[str, Any]], conn):
                 res["twin"]["witness_claim_failed"] = True
             # traced-vs-concrete observable comparison
             traced_obs = _jsonable((tv.extra.get("side") or {}).get("obs"))
-            if rp.get("obs") is not None and traced_obs is not None and traced_obs != rp.get("obs"):
+            if rp.get("ok") is True and rp.get("obs") is not None and traced_obs is not None and traced_obs != rp.get("obs"):
                 res["status"] = "harness_error"
                 res["messages"].append("traced run and concrete text-route replay observe different outcomes on the twin witness: "
                                        f"traced={json.dumps(traced_obs)[:600]} concrete={json.dumps(rp.get('obs'))[:600]}")
